@@ -288,7 +288,7 @@ impl Check for C19Check {
                "simulated": ["rayon-core scheduler (/verif/shims/rayon-core: seeded, one thread at a time, real OS worker threads with the configured stack size)", "OS randomness for hash keys (getrandom via LD_PRELOAD)"],
                "model": ["TRG 62.5 MHz counter / run timeline", "event builder incl. undecodable events", "MIDAS logger", "operator (argv, env)"],
                "stub": [], "filesystem": "real, private scratch directory under /dev/shm",
-               "cross_check": "thorough tier also runs configurations on the build with the real rayon-core (real threads) and requires the same bytes"})
+               "cross_check": "every 16th quick scenario and every 4th thorough scenario also runs a configuration on the build with the REAL rayon-core (real threads) and requires the same bytes (stub-fidelity check of the simulated scheduler)"})
     }
     fn count(&self, tier: Tier) -> u64 {
         match tier {
@@ -358,7 +358,7 @@ impl Check for C19Check {
                 sched_replay: None,
             })
             .collect();
-        if tier == Tier::Thorough && index % 4 == 0 {
+        if (tier == Tier::Thorough && index % 4 == 0) || (tier == Tier::Quick && index % 16 == 0) {
             // stub-fidelity cross-check on real threads
             cfgs.push(RunCfg { argv_seed: r.next_u64(), threads: *r.pick(&[1u32, 2, 5, 16]), sched_seed: 0, hash_seed: r.next_u64() >> 1, verbose: false, real_rayon: true, sched_replay: None });
         }
